@@ -1,15 +1,22 @@
 ------------------------------ MODULE RemuxOut ------------------------------
 (* C06: what an RTMP publisher sends must be what TS (HTTP-TS, HLS) and RTP (RTSP) consumers     *)
 (* recover.                                                                                      *)
-(*   Acceptor  - AcceptTs / AcceptRtp / EndOk: what any standards-conforming demuxer must find   *)
-(*               in the output, relative to the history of published messages (SameUnits,        *)
-(*               OnlyAllowedExtras, KeyHasParamSets, TsTime, RtpTime, Adts, completeness).       *)
-(*   Reference - RmPush / RmDispose / Deliver: lal's Rtmp2MpegtsRemuxer (probe queue, parameter  *)
-(*               set cache, AUD / parameter-set insertion, audio batching and flush rules,       *)
-(*               `opened`, boundary rule, per-track time base) and the HTTP-TS fan-out of        *)
+(*   Acceptor  - AcceptTs / AcceptRtp / EndOk / StartsInTime: what any standards-conforming      *)
+(*               demuxer must find in the output, relative to the history of published messages: *)
+(*               SameUnits (every NAL unit / audio frame once, in order, complete, from the      *)
+(*               consumer's first frame on), OnlyAllowedExtras (AUDs, parameter sets), the       *)
+(*               parameter sets in force before every key picture and every in-band set before   *)
+(*               the picture it was sent with, TsTime (one constant per track and consumer,      *)
+(*               mod 2^33), Adts, RtpTime (one tick), completeness at the end of the stream and  *)
+(*               a timely start of the consumers that are attached from the beginning.           *)
+(*   Reference - RmPush / RmFlushAudio / FeedTs: lal's Rtmp2MpegtsRemuxer (probe queue,          *)
+(*               parameter set cache, AUD / parameter-set insertion, audio batching and flush    *)
+(*               rules, `opened`, boundary rule, per-track time base) and the HTTP-TS fan-out of *)
 (*               logic.Group (fresh / wait-boundary / GOP cache) as a deterministic machine;     *)
 (*               TLC checks that it satisfies the acceptor for every enumerated behaviour and    *)
-(*               emits the behaviours that are replayed against the real code.                   *)
+(*               emits the behaviours that are replayed against the real code.  Trace validation *)
+(*               uses the acceptor only: the code may batch or flush differently (the HLS muxer  *)
+(*               forces flushes) as long as the property holds.                                  *)
 (* Payloads are position coded: a unit is (id, off, n, ok) - "bytes off..off+n of unit id, all   *)
 (* bytes equal".  33-bit clocks are three 15-bit limbs (T3), 32-bit ones use a 2-bit top limb.   *)
 EXTENDS Integers, Sequences, FiniteSets, TLC, Json
